@@ -9,7 +9,7 @@
 import AgeModel.Extracted.ExecSites
 import AgeModel.Extracted.Consts
 import AgeModel.SpecConsts
-import Proofs.GoTieCodec
+import Proofs.GoTieMisc
 namespace AgeModel
 namespace Tie.C17
 
@@ -52,30 +52,15 @@ theorem allowlist_no_separator :
     Extracted.pluginNameAllowedBytes.all (fun b => b != 47 && b != 92 && b != 0 && b != 32) = true := by decide
 
 
-/-! ## The code itself (DESIGN.md §5.3): `plugin.validPluginName` and the two parsers that
-    guard every construction of a plugin client, TRANSLATED from the source on every run,
-    compute the model's functions for all byte strings (invalid UTF-8 included). -/
+/-! ## The code itself (DESIGN.md §5.3): `plugin.validPluginName`, the one test every construction
+    of a plugin client goes through, TRANSLATED from the source on every run, computes the model's
+    function for all byte strings (invalid UTF-8 included). (The parsers and encoders built on it
+    and on Bech32 are tied in Tie/C09; they are kept out of this file so that a rewrite of the
+    Bech32 code does not touch this property's obligations.) -/
 
 theorem validPluginName_tie (n : Bytes) :
     Extracted.plugin_validPluginName n = .ok (Keys.validPluginName n) :=
   GoTie.validPluginName_tie n
-
-theorem parseRecipient_tie (s : Bytes) :
-    Extracted.plugin_ParseRecipient s = .ok (match Keys.parseRecipient s with
-      | .ok (n, d) => (n, d, none)
-      | .error e => ([], [], GoTie.parseRcErr e)) :=
-  GoTie.parseRecipient_tie s
-
-theorem parseIdentity_tie (s : Bytes) :
-    Extracted.plugin_ParseIdentity s = .ok (match Keys.parseIdentity s with
-      | .ok (n, d) => (n, d, none)
-      | .error e => ([], [], GoTie.parseIdErr e)) :=
-  GoTie.parseIdentity_tie s
-
-/-- `EncodeIdentity` (through which `NewIdentityWithoutData`, i.e. `-j NAME`, validates its name) -/
-theorem encodeIdentity_tie (name data : Bytes) :
-    Extracted.plugin_EncodeIdentity name data = .ok (Keys.encodeIdentity name data) :=
-  GoTie.encodeIdentity_tie name data
 
 end Tie.C17
 end AgeModel
